@@ -18,7 +18,7 @@ def sh(cmd, cwd=None, timeout=900):
     return p.returncode, p.stdout
 
 
-def validate():
+def validate(only=None):
     os.makedirs(os.path.join(V, "seeded"), exist_ok=True)
     wt = "/tmp/mv/wt"
     sh("git -C /repo worktree remove --force %s" % wt)
@@ -31,6 +31,8 @@ def validate():
         prop = metaf.split("/")[3]
         k = re.search(r"meta(\d+)\.json", metaf).group(1)
         sid = f"{prop}-{k}"
+        if only and sid not in only:
+            continue
         d = os.path.dirname(metaf)
         patch, demo = f"{d}/patch{k}.diff", f"{d}/demo{k}_test.go"
         rec = {"id": sid, "property": prop}
@@ -40,7 +42,7 @@ def validate():
             meta = {"summary": "unparsable meta: %s" % e}
         rec["summary"] = meta.get("summary", "")
         rec["needs"] = meta.get("needs", "")
-        sh("git checkout -- . && git clean -fdq", cwd=wt)
+        sh("git reset --hard -q && git clean -fdq", cwd=wt)
         rc, out = sh(f"git apply {patch} || git apply -3 {patch}", cwd=wt)
         if rc != 0:
             rec["status"] = "does-not-apply-on-HEAD"
@@ -80,10 +82,14 @@ def validate():
             rec["status"] = "demo-not-discriminating"
             rec["detail"] = f"fails_with={fails_with} passes_without={passes_without}\n{out_with[-300:]}\n---\n{out_wo[-300:]}"
         report.append(rec); print(sid, rec["status"])
-    sh("git checkout -- . && git clean -fdq", cwd=wt)
+    sh("git reset --hard -q && git clean -fdq", cwd=wt)
     sh("git -C /repo worktree remove --force %s" % wt)
     shutil.rmtree("/tmp/mv", ignore_errors=True)
-    json.dump(report, open(os.path.join(V, "seeded", "VALIDATION.json"), "w"), indent=1)
+    vf = os.path.join(V, "seeded", "VALIDATION.json")
+    if only and os.path.exists(vf):
+        old = [r for r in json.load(open(vf)) if r["id"] not in only]
+        report = sorted(old + report, key=lambda r: r["id"])
+    json.dump(report, open(vf, "w"), indent=1)
 
 
 def run(ids):
@@ -129,6 +135,6 @@ def run(ids):
 
 if __name__ == "__main__":
     if sys.argv[1] == "validate":
-        validate()
+        validate(sys.argv[2:] or None)
     else:
         run(sys.argv[2:])
